@@ -238,7 +238,7 @@ func runSweep(c *core.Ctx, wp *workerPool) bool {
 			}
 		} else {
 			seen := map[[2]int]bool{}
-			for k := 0; k < c.Pick(1200, 4000); k++ {
+			for k := 0; k < c.Pick(1200, 2500); k++ {
 				p, b := rng.Intn(n), rng.Intn(8)
 				if seen[[2]int{p, b}] {
 					continue
@@ -255,7 +255,7 @@ func runSweep(c *core.Ctx, wp *workerPool) bool {
 				}
 			}
 		}
-		for k := 0; k < c.Pick(300, 1500); k++ {
+		for k := 0; k < c.Pick(300, 900); k++ {
 			p := rng.Intn(n)
 			v := byte(rng.Intn(256))
 			if v == e.data[p] {
